@@ -505,6 +505,8 @@ func c03Pool(rr *rt.R, r *fw.RNG) []*lisp.LVal {
 		eval("car"), eval("(lambda (x) x)"), eval("(lambda (&rest xs) xs)"), eval("(lambda () (error 'from-callback 1))"), eval("(function defun)"), eval("(function if)"), eval("(flip -)"),
 		eval("(progn (deftype c03t (x) x) (new c03t 5))"), eval("lisp:typedef"),
 		lisp.Int(3), lisp.Int(1 << 32), lisp.Int(1 << 62), lisp.Int(-(1 << 62)), lisp.String("ab"), lisp.String("héé"),
+		// the remaining type specifiers the sequence builtins take as their first argument
+		lisp.Quote(lisp.Symbol("bytes")), lisp.Quote(lisp.Symbol("string")), lisp.Quote(lisp.Symbol("sorted-map")), lisp.Quote(lisp.Symbol("array")),
 	}
 	for i, p := range pool {
 		if p == nil {
@@ -564,6 +566,18 @@ func c03Sweep(w *fw.W, idx int) {
 			}
 		}
 	}
+	// type specifiers: the sequence builtins dispatch on a symbol in the first position,
+	// so every second call of an arity >= 2 batch walks them there (unless that position
+	// is one of the two being enumerated)
+	var tsidx []int
+	for j, p := range pool {
+		if p.Type == lisp.LSymbol || p.Type == lisp.LQSymbol {
+			switch p.Str {
+			case "list", "vector", "bytes", "string", "sorted-map", "array":
+				tsidx = append(tsidx, j)
+			}
+		}
+	}
 	enumerate := arity >= 1 && arity <= 3 && rep%2 == 0
 	pa, pb := 0, 1
 	if arity == 3 {
@@ -585,6 +599,9 @@ func c03Sweep(w *fw.W, idx int) {
 			j := r.Intn(len(pool))
 			if !enumerate && arity <= 3 && c < len(pool) && i == c%max(arity, 1) {
 				j = (c / max(arity, 1) * 7) % len(pool) // walk the pool systematically in one position
+			}
+			if i == 0 && arity >= 2 && c%2 == 1 && len(tsidx) > 0 {
+				j = tsidx[(c/2+c/len(bidx))%len(tsidx)]
 			}
 			if enumerate {
 				switch {
